@@ -117,7 +117,7 @@ let parse_op (base : n list list) (o : string) : hop =
   | _ -> failwith ("bad op " ^ o)
 
 let classify (o : hop) (expected : string) (impl : string) : string =
-  if impl = "DROP" || (String.length impl >= 5 && String.sub impl 0 5 = "PANIC") then "handler-panic"
+  if impl = "DROP" || (String.length impl >= 5 && String.sub impl 0 5 = "PANIC") then "handler-panic-or-connection-dropped"
   else match o with
   | HCli _ -> "client-effect"
   | HAdd _ -> "delivery"
@@ -180,7 +180,7 @@ let judge (asm : bool) (storef : string) (basef : string) (opsf : string) (outs 
         let verdict =
           if !asm_err >= 0 then Printf.sprintf "fail:assembled-delivery-not-visible-through-the-api@%d" !asm_err
           else if List.length outs < nops + 1 then
-            (match outs with "PANIC" :: _ -> "fail:handler-panic" | _ -> "fail:no-answer")
+            (match outs with "PANIC" :: _ -> "fail:handler-panic-or-connection-dropped" | _ -> "fail:no-answer")
           else begin
             let rec go st broken ops outs i =
               match ops, outs with
@@ -188,6 +188,9 @@ let judge (asm : bool) (storef : string) (basef : string) (opsf : string) (outs 
               | `Vanish (m, k) :: ops', impl :: outs' ->
                   if impl <> "X" then Printf.sprintf "fail:harness@%d" i
                   else go st (if is_file then (m, k) :: broken else broken) ops' outs' (i + 1)
+              | `Model _ :: _, impl :: _ when impl = "DROP" ->
+                  (* no request may make a handler panic or drop the connection — whatever the model says for it *)
+                  Printf.sprintf "fail:handler-panic-or-connection-dropped@%d" i
               | `Model o :: ops', impl :: outs' ->
                   (match hspec mfa cfg (env broken o) base st o with
                    | Some (st', out) ->
@@ -195,7 +198,7 @@ let judge (asm : bool) (storef : string) (basef : string) (opsf : string) (outs 
                        if e = impl then go st' broken ops' outs' (i + 1)
                        else Printf.sprintf "fail:%s@%d" (classify o e impl) i
                    | None ->
-                       if impl = "DROP" then Printf.sprintf "fail:handler-panic@%d" i
+                       if impl = "DROP" then Printf.sprintf "fail:handler-panic-or-connection-dropped@%d" i
                        else
                          let st' = (match o with HRace (_, mbs, k) -> remove st mbs k | _ -> st) in
                          go st' broken ops' outs' (i + 1))
